@@ -482,7 +482,7 @@ func init() {
 				"distinct_nontrivial":           r.Counters["nontrivial"],
 			}
 		},
-		Rule:        "for each of the 20 Name constants (read from the library packages, not from the CLI's table): commands compare/contains/sort x every argument vector of length 0..3 (sort: thorough 0..4, plus length 5 over 5 strings) over a 14-string pool (3 valid versions, a Compare-equal variant, 2 valid ranges, an invalid string, empty, blank, -1, --, a quoted version, a string with an inner space, one with a newline); 7 unknown command spellings; 'vers contains' over all vectors of length 0..3 over a 16-string pool; 18 near-miss names. Every vector is run through the repository's run() (overlay-built in-process server) and a deterministic 1-in-k stride also as real processes of the unmodified binary. Expected stdout/exit code are computed by calling the library directly. distinct_nontrivial = vectors whose expectation is a success. Routing fingerprint: every ordered pair over 36 characteristic spellings drawn from all ecosystems through `compare` under every name; the library itself is used to confirm that every two ecosystems differ on at least one such pair (fingerprint_distinguished_pairs).",
+		Rule:        "for each of the 20 Name constants (read from the library packages, not from the CLI's table): commands compare/contains/sort x every argument vector of length 0..3 (sort: thorough 0..4, plus length 5 over 5 strings) over a 14-string pool (3 valid versions, a Compare-equal variant, 2 valid ranges, an invalid string, empty, blank, -1, --, a quoted version, a string with an inner space, one with a newline); 7 unknown command spellings; long arguments (six long spellings of a valid version and three of a range at lengths 31, 65, 129, 257, 1025, 4097, and sort with up to 1024 arguments; counter long_argument_vectors); 'vers contains' over all vectors of length 0..3 over a 16-string pool; 18 near-miss names. Every vector is run through the repository's run() (overlay-built in-process server) and a deterministic 1-in-k stride also as real processes of the unmodified binary. Expected stdout/exit code are computed by calling the library directly. distinct_nontrivial = vectors whose expectation is a success. Routing fingerprint: every ordered pair over 36 characteristic spellings drawn from all ecosystems through `compare` under every name; the library itself is used to confirm that every two ecosystems differ on at least one such pair (fingerprint_distinguished_pairs).",
 		Assumptions: []string{"sort output is checked as multiset + library order (the order among Compare-equal versions is not fixed by the property)"},
 	})
 }
